@@ -366,6 +366,62 @@ func checkC15(c *Ctx) {
 		r.Ob("NO-HIDDEN-STATE", sc.name+" scope writes no package-level variable", "", len(bad) == 0, fmt.Sprintf("%d functions inspected; %s", nfn, strings.Join(bad, "; ")))
 	}
 
+	// (2b) a pooled object is released only once it is owned by nobody else
+	useAfterRelease(c, "ACQ-REL", []string{pRT, pRT2, pEngine, pFuncs, pInput, pParser})
+	{
+		putMeta := t.Func(pInput, "PutMeta")
+		nRel := 0
+		if putMeta != nil {
+			for _, f := range t.PkgFuncs(pInput) {
+				allInstrs(f, func(in ssa.Instruction) {
+					call, ok := in.(*ssa.Call)
+					if !ok || call.Call.StaticCallee() != putMeta {
+						return
+					}
+					nRel++
+					m := call.Call.Args[0]
+					// where does the entry come from: a lookup / range over the point's index
+					var mapV, keyV ssa.Value
+					switch x := m.(type) {
+					case *ssa.Extract:
+						switch tup := x.Tuple.(type) {
+						case *ssa.Lookup:
+							mapV, keyV = tup.X, tup.Index
+						case *ssa.Next:
+							if rg, ok := tup.Iter.(*ssa.Range); ok {
+								mapV = rg.X
+								for _, ref := range *tup.Referrers() {
+									if ex, ok := ref.(*ssa.Extract); ok && ex.Index == 1 {
+										keyV = ex
+									}
+								}
+							}
+						}
+					case *ssa.Lookup:
+						mapV, keyV = x.X, x.Index
+					}
+					unlinked := false
+					detail := "the released entry does not come from a lookup of the index"
+					if mapV != nil && keyV != nil {
+						detail = fmt.Sprintf("entry %s[%s]", path(mapV), path(keyV))
+						allInstrs(f, func(i2 ssa.Instruction) {
+							d, ok := i2.(*ssa.Call)
+							if !ok || builtinName(d) != "delete" {
+								return
+							}
+							if path(d.Call.Args[0]) == path(mapV) && (d.Call.Args[1] == keyV || path(d.Call.Args[1]) == path(keyV)) && precedes(d, call) {
+								unlinked = true
+							}
+						})
+					}
+					r.Ob("ACQ-REL", fmt.Sprintf("%s releases an index entry only after removing it from the index (PutMeta #%d)", relName(f), ordinalCall(f, call)), t.Pos(call.Pos()), unlinked,
+						detail+": delete(Meta, key) with the same key must dominate PutMeta — an entry that goes back to the pool while a key still points at it is handed to another key later and both then share type and flag")
+				})
+			}
+		}
+		r.FloorN("PutMeta call sites", nRel, 2)
+	}
+
 	// (3b) no third-party object shared between runs
 	{
 		var fns []*ssa.Function
